@@ -87,6 +87,7 @@ def run_job(build, job, trace=False):
     ms = re.findall(r'Runtime (?:Solver|decision procedure): ([0-9.]+)s', out)
     res['solver_s'] = sum(float(x) for x in ms)
     res['n_props'] = len(props)
+    res['no_body'] = sorted(set(re.findall(r'no body for (?:function|callee) (\S+)', out + err)))
     if rc not in (0, 10) or not props:
         res.update(verdict='inconclusive', why='cbmc rc=%s: %s' % (rc, (out[-600:] + err[-600:]).replace('\n', ' | ')), failed=[])
         return res
@@ -123,6 +124,8 @@ def run_jobs(build, jobs, report, workers=None, on_violation=None):
         report.functions.update(job.funcs)
         report.queries += r.get('n_props', 0)
         report.solver_s += r.get('solver_s', 0)
+        for nb in r.get('no_body', []):
+            report.assume('function without body treated as returning an arbitrary value: ' + nb)
         if r['verdict'] == 'held':
             report.held(job.name, wall_s=r['wall_s'], n_props=r['n_props'], witness=r.get('witness'), engine='cbmc')
             if len(report.samples) < 12:
